@@ -320,3 +320,112 @@ func (c *Cond) Broadcast() {
 	}
 	c.waiters = nil
 }
+
+// Map mirrors sync.Map. Every operation is a scheduling point and a
+// synchronisation on the map as a whole (more happens-before than the real
+// primitive guarantees between unrelated keys: can hide, never invent, a
+// race). Range visits a snapshot in insertion order.
+type Map struct {
+	m    map[interface{}]interface{}
+	keys []interface{}
+	hb   vrt.SyncVar
+	ep   int64
+}
+
+func (m *Map) op(name string) {
+	if fresh(&m.ep) {
+		m.m, m.keys, m.hb = nil, nil, vrt.SyncVar{}
+	}
+	vrt.PointOp("Map."+name, uintptr(unsafe.Pointer(m)))
+	vrt.Acquire(&m.hb)
+	vrt.ReleaseMerge(&m.hb)
+	if m.m == nil {
+		m.m = map[interface{}]interface{}{}
+	}
+}
+
+func (m *Map) drop(key interface{}) {
+	delete(m.m, key)
+	for i, k := range m.keys {
+		if k == key {
+			m.keys = append(m.keys[:i], m.keys[i+1:]...)
+			return
+		}
+	}
+}
+
+func (m *Map) Load(key interface{}) (interface{}, bool) {
+	m.op("Load")
+	v, ok := m.m[key]
+	return v, ok
+}
+
+func (m *Map) Store(key, value interface{}) { m.Swap(key, value) }
+
+func (m *Map) Swap(key, value interface{}) (interface{}, bool) {
+	m.op("Swap")
+	old, ok := m.m[key]
+	if !ok {
+		m.keys = append(m.keys, key)
+	}
+	m.m[key] = value
+	return old, ok
+}
+
+func (m *Map) LoadOrStore(key, value interface{}) (interface{}, bool) {
+	m.op("LoadOrStore")
+	if v, ok := m.m[key]; ok {
+		return v, true
+	}
+	m.keys = append(m.keys, key)
+	m.m[key] = value
+	return value, false
+}
+
+func (m *Map) LoadAndDelete(key interface{}) (interface{}, bool) {
+	m.op("LoadAndDelete")
+	v, ok := m.m[key]
+	if ok {
+		m.drop(key)
+	}
+	return v, ok
+}
+
+func (m *Map) Delete(key interface{}) { m.LoadAndDelete(key) }
+
+func (m *Map) CompareAndSwap(key, old, new interface{}) bool {
+	m.op("CompareAndSwap")
+	if v, ok := m.m[key]; ok && v == old {
+		m.m[key] = new
+		return true
+	}
+	return false
+}
+
+func (m *Map) CompareAndDelete(key, old interface{}) bool {
+	m.op("CompareAndDelete")
+	if v, ok := m.m[key]; ok && v == old {
+		m.drop(key)
+		return true
+	}
+	return false
+}
+
+func (m *Map) Range(f func(key, value interface{}) bool) {
+	m.op("Range")
+	keys := append([]interface{}{}, m.keys...)
+	for _, k := range keys {
+		v, ok := m.m[k]
+		if !ok {
+			continue
+		}
+		if !f(k, v) {
+			return
+		}
+	}
+}
+
+func (m *Map) Clear() {
+	m.op("Clear")
+	m.m, m.keys = map[interface{}]interface{}{}, nil
+}
